@@ -52,11 +52,18 @@ class FaultController:
         self.counts[seam] = n
         self.crossings_total[seam] = self.crossings_total.get(seam, 0) + 1
         for f in self.armed:
-            if f['seam'] == seam and f['nth'] == n and not f.get('_fired'):
+            if f['seam'] != seam:
+                continue
+            if f['nth'] == n and not f.get('_fired'):
                 f['_fired'] = True
                 rec = {'seam': seam, 'nth': n, 'kind': f['kind']}
+                if f.get('persistent'):
+                    rec['persistent'] = True
                 self.fired.append(rec)
                 self.ctx.emit('fault_fired', op=self.op, **rec)
+                return f
+            if f.get('persistent') and f.get('_fired') and n > f['nth']:
+                # a fault that does not go away (full disk, lock held by someone else): every later crossing fails too
                 return f
         return None
 
